@@ -17,7 +17,7 @@ GOENV = dict(os.environ, GOFLAGS="-mod=mod", GOPROXY="off", GOSUMDB="off", GOTOO
 
 KF_ALL = ["KF_CollisionWinner", "KF_CounterFirst", "KF_TagAdoptEarly", "KF_ResendHistory",
           "KF_MacPerMessage", "KF_CounterGrowth", "KF_StraySigFlush", "KF_ReAKEWipesMacs", "KF_FragKeep",
-          "KF_BadCommitWipes", "KF_EarlyPeerKey", "KF_RejectCommits", "KF_AKETimerAlways"]
+          "KF_BadCommitWipes", "KF_EarlyPeerKey", "KF_RejectCommits", "KF_AKETimerAlways", "KF_SMPCorruptSilent"]
 
 
 class Broken(Exception):
@@ -111,12 +111,13 @@ def write_mc(d, consts, kf, invariants=(), properties=(), spec="Spec", export=Fa
         prelude = [dict(a="Query", p="A")] + prelude
         drain = True
     c = dict(MaxSend=0, MaxFlight=2, MaxTick=0, MaxEnd=0, MaxQuery=0, MaxExtra=0,
-             NetMode="fifo", MaxDup=0, MaxDrop=0, AllPol=False, MaxOffer=0)
-    c.update({k: v for k, v in consts.items() if k not in ("PolA", "PolB", "VerA", "VerB", "Setup", "Prelude", "PreludeDrain")})
+             NetMode="fifo", MaxDup=0, MaxDrop=0, AllPol=False, MaxOffer=0, MaxSMPStart=0, MaxSMPAnswer=0, MaxSMPAbort=0)
+    c.update({k: v for k, v in consts.items() if k not in ("PolA", "PolB", "VerA", "VerB", "Setup", "Prelude", "PreludeDrain", "Secrets")})
     c["PreludeDrain"] = drain
     mc = ["---- MODULE MC ----", "EXTENDS OTRModel",
           'MCPol == [p \\in {"A","B"} |-> IF p = "A" THEN %s ELSE %s]' % (pol_rec(consts.get("PolA", 3)), pol_rec(consts.get("PolB", 3))),
           'MCVer == [p \\in {"A","B"} |-> IF p = "A" THEN %d ELSE %d]' % (consts.get("VerA", 0), consts.get("VerB", 0))]
+    mc.append("MCSecrets == {" + ", ".join(str(x) for x in consts.get("Secrets", [1, 2])) + "}")
     mc.append("MCPrelude == <<" + ", ".join('[a |-> "%s", p |-> "%s"]' % (x["a"], x["p"]) for x in prelude) + ">>")
     if constraint:
         mc.append("MCConstraint == " + constraint)
@@ -125,7 +126,7 @@ def write_mc(d, consts, kf, invariants=(), properties=(), spec="Spec", export=Fa
     cfg = ["SPECIFICATION " + spec, "CONSTANTS"]
     for k in KF_ALL:
         cfg.append("  %s = %s" % (k, tla_val(bool(kf.get(k, False)))))
-    cfg += ["  Pol <- MCPol", "  Ver0 <- MCVer", "  Prelude <- MCPrelude"]
+    cfg += ["  Pol <- MCPol", "  Ver0 <- MCVer", "  Prelude <- MCPrelude", "  Secrets <- MCSecrets"]
     for k, v in c.items():
         cfg.append("  %s = %s" % (k, tla_val(v)))
     cfg.append("  Export = %s" % tla_val(export))
